@@ -93,7 +93,7 @@ register('C16', [
     'matrix entries are integer-valued f64 from i8; sizes 2x2 (quick) / 3x3 (thorough); profile scale in {0.5,1,2,4}',
     'the provider is exercised through its concrete type (dyn dispatch would make CBMC explore the HashMap-backed time-aware implementor)',
 ], [
-    'TimeAwareMatrixTransportCost::new grouping (std HashMap); of pragmatic create_transport_costs only the per-matrix step (values, error codes -> -1, lengths) is inside: profile matching (HashMap of names), timestamps (RFC3339) and the serde model are outside',
+    'TimeAwareMatrixTransportCost::new is decided with its hash containers modelled as association lists over symbolic keys and collect_group_by_key taken as grouping by key (the std HashMap itself is trusted); of pragmatic create_transport_costs only the per-matrix step (values, error codes -> -1, lengths) is inside: profile matching (HashMap of names), timestamps (RFC3339) and the serde model are outside',
     'haversine approximation (trigonometry), location_fallback; non-square matrix lengths (sqrt().round() accepts them; not part of the stated property)',
 ])
 
